@@ -3,6 +3,7 @@ package props
 import (
 	"fmt"
 	"strconv"
+	"strings"
 
 	"verif/internal/mon"
 	"verif/internal/refsem"
@@ -309,7 +310,49 @@ var c06Cases = []c06Case{
 	{`any l as v { l.0 == 1 }`, "T"}, {`all l as v { x == "top" }`, "T"}, {`any l as x { any l as y { x == 1 and y == 3 } }`, "T"},
 }
 
+// c06Deep: quantifiers nested 5..24 deep (two names per level, so up to 48
+// bindings in scope), each inner one re-binding the value name of the outer
+// one and ranging over it: `any x as i1, x { any x as i2, x { ... x == 1 } }`.
+// Innermost bindings shadow; every index name stays visible.
+func c06Deep(c *mon.Ctx, idx int) {
+	depth := []int{5, 8, 9, 10, 12, 16, 17, 18, 24}[idx%9]
+	var cur interface{} = 1
+	for i := 0; i < depth; i++ {
+		cur = []interface{}{cur}
+	}
+	datum := map[string]interface{}{"x": cur, "top": "t"}
+	build := func(leaf string, kind string) string {
+		var sb strings.Builder
+		for i := 1; i <= depth; i++ {
+			fmt.Fprintf(&sb, "%s x as i%d, x { ", kind, i)
+		}
+		sb.WriteString(leaf + strings.Repeat(" }", depth))
+		return sb.String()
+	}
+	cases := []c06Case{
+		{build("x == 1", "any"), "T"}, {build("x != 1", "all"), "F"}, {build("x == 1 and i1 == 0 and i"+fmt.Sprint(depth)+" == 0", "any"), "T"}, {build("x == 2 or top == t", "all"), "T"},
+		{build("x == 1 and i"+fmt.Sprint(depth/2)+" == 1", "any"), "F"}, {build("x.y == 1", "any"), "E"}, {build(`"/x" == 1`, "any"), "T"},
+	}
+	// the same with a top-level field named like the re-bound value name shadowed throughout
+	for _, cs := range cases {
+		ev, err, pan, _ := createEval(cs.expr)
+		c.Evals(1)
+		if pan != "" || err != nil {
+			c.Violation("C06 fixed-case-rejected", "a deeply nested quantifier expression was rejected", map[string]any{"expression": clip(cs.expr, 300), "error": fmt.Sprint(err) + pan})
+			return
+		}
+		if o := evaluate(ev, datum); o.Class3() != cs.want {
+			c.Violation(fmt.Sprintf("C06 deep-nesting got=%s want=%s depth=%d", o.Class3(), cs.want, depth), "quantifiers nested deep, each re-binding the outer value name, do not give the outcome the statement prescribes", map[string]any{"expression": clip(cs.expr, 400), "nesting": depth, "observed": o.String(), "expected": cs.want})
+			return
+		}
+	}
+	c.Count("deep_nesting_cases")
+}
+
 func c06Fixed(c *mon.Ctx, idx int, r interface{ Intn(int) int }) {
+	if idx%100 == 37 {
+		c06Deep(c, idx/100)
+	}
 	cs := c06Cases[idx%len(c06Cases)]
 	c.Evals(1)
 	ev, err, pan, _ := createEval(cs.expr)
@@ -332,7 +375,7 @@ func init() {
 		NumCases:    func(tier string) int { return tierN(tier, 6000, 300000) },
 		Run:         c06Run,
 		Required: func(tier string) []string {
-			l := []string{"unrolled_compared", "fixed_cases", "nested_quantifier", "empty_list", "quant-outcome:T", "quant-outcome:F", "quant-outcome:E", "unrolled:T/n=3", "unrolled:F/n=3", "unrolled:E/n=2"}
+			l := []string{"unrolled_compared", "fixed_cases", "deep_nesting_cases", "nested_quantifier", "empty_list", "quant-outcome:T", "quant-outcome:F", "quant-outcome:E", "unrolled:T/n=3", "unrolled:F/n=3", "unrolled:E/n=2"}
 			for m := 0; m < 4; m++ {
 				l = append(l, fmt.Sprintf("mode:%d/slice", m), fmt.Sprintf("mode:%d/map", m))
 			}
